@@ -1618,7 +1618,7 @@ func (r *replicateChannelHandler) handlePack(forward bool, pack *msgstream.MsgPa
 
 			realMsg.CollectionID = info.CollectionID
 			info.BarrierChan.Write(&model.BarrierSignal{
-				Msg:      msg,
+				Msg:      copyDropTypeMsg(msg),
 				VChannel: info.VChannel,
 			})
 			needTsMsg = true
@@ -1681,7 +1681,7 @@ func (r *replicateChannelHandler) handlePack(forward bool, pack *msgstream.MsgPa
 					continue
 				}
 				partitionBarrierChan.Write(&model.BarrierSignal{
-					Msg:      msg,
+					Msg:      copyDropTypeMsg(msg),
 					VChannel: info.VChannel,
 				})
 				r.RemovePartitionInfo(sourceCollectionID, realMsg.PartitionName, partitionID)
